@@ -263,11 +263,104 @@ func runC06(c *Ctx) {
 	if c.Thorough() {
 		nHist = 1000
 	}
-	c.R.Rule = fmt.Sprintf("%d random multipart histories per backend instance: interleavings of initiate / upload-part / complete / abort / get over 1–2 keys with up to 3 concurrent uploads per key, part numbers from {1,2,3,5,9,10000} plus rejected {0,-1,10001}, re-uploads, bodies 1 B–64 KiB; part lists: subsets, permutations (out of order), duplicates, unknown numbers, stale/wrong/unquoted ETags, empty; after every complete/abort the object is read back and further operations on the upload id are tried; compared with the Lean uploader model and with Spec.Multipart; non-trivial = distinct history with a complete attempt", nHist)
+	c.R.Rule = fmt.Sprintf("%d random multipart histories per backend instance: interleavings of initiate / upload-part / complete / abort / get over 1–2 keys with up to 3 concurrent uploads per key, part numbers from {1,2,3,5,9,10000} plus rejected {0,-1,10001}, re-uploads, bodies 1 B–64 KiB; part lists: subsets, permutations (out of order), duplicates, unknown numbers, stale/wrong/unquoted ETags, empty; after every complete/abort the object is read back and further operations on the upload id are tried; compared with the Lean uploader model and with Spec.Multipart; fs backends: a complete whose store is refused (the key needs a directory where an object is) leaves upload, parts and objects untouched and succeeds once the obstacle is removed; non-trivial = distinct history with a complete attempt", nHist)
 	for _, kind := range c.kinds(impl.AllKinds) {
 		for hI := 0; hI < nHist; hI++ {
 			c06History(c, kind)
 		}
+		if strings.HasPrefix(kind, "fs") {
+			c06FailedStore(c, kind, "c06")
+		}
+	}
+}
+
+// c06FailedStore: a complete request that is in order but whose final PutObject is refused by
+// the backend (fs backends: the key needs a directory where an object is) must leave the
+// pending upload, its parts and the stored objects as they were; once the obstacle is gone the
+// same request succeeds.  Judged against the statement only (the memory model never refuses).
+func c06FailedStore(c *Ctx, kind, prop string) {
+	inst, err := impl.New(kind, c.Tmp)
+	if err != nil {
+		c.mismatch(Mismatch{Kind: "model", Backend: kind, Finger: "setup", Impl: err.Error()})
+		return
+	}
+	defer inst.Close()
+	r := newRunner(c, inst, false, false, false)
+	b := "bk1"
+	if inst.IsSingle() {
+		b = impl.SingleBucketName
+	} else {
+		r.MkBucket(b)
+	}
+	key, blocker := "cf/child", "cf"
+	part := []byte("PARTDATA")
+	var trace []string
+	note := func(l, o string) { trace = append(trace, l+" -> "+trunc(o, 80)) }
+	fail := func(what, obs, want string) {
+		c.mismatch(Mismatch{Kind: "spec", Backend: kind, Case: append([]string{}, trace...), Impl: what + ": " + trunc(obs, 200), Spec: want, Finger: prop + ":refused-complete-changed-upload"})
+	}
+	l, o, id := r.MpInit(b, key, map[string]string{"X-Amz-Meta-U": "1"})
+	note(l, o)
+	if id == "" {
+		return
+	}
+	l, o = r.MpPart(b, key, id, "1", part, "", nil)
+	note(l, o)
+	etag := etagOf(part)
+	l, o = r.Put(b, blocker, nil, []byte("blocker"))
+	note(l, o)
+	l, o = r.MpComplete(b, key, id, []cpart{{1, etag}})
+	note(l, o)
+	c.R.Evaluations++
+	if !strings.HasPrefix(o, "err ") {
+		c.hist(prop + ":failed-store:not-refused")
+		return
+	}
+	c.hist(prop + ":failed-store:refused")
+	c.nontrivial(prop + "|failed-store|" + kind)
+	lu, uo := r.MpUploads(b, false, "", false, "", "", "", "", 1000)
+	note(lu, uo.Obs)
+	found := false
+	for _, it := range uo.Items {
+		if it == hx(key)+":"+id {
+			found = true
+		}
+	}
+	if !found {
+		fail("ListMultipartUploads after the refused complete", uo.Obs, "the upload is still pending (neither completed nor aborted)")
+		return
+	}
+	lp, po := r.MpParts(b, key, id, "", "", 0, 1000)
+	note(lp, po.Obs)
+	if !po.OK || len(po.Items) != 1 || !strings.HasPrefix(po.Items[0], fmt.Sprintf("1:%d:", len(part))) {
+		fail("ListParts after the refused complete", po.Obs, "part 1 is still held with its size and ETag")
+		return
+	}
+	l, o = r.Get(b, blocker)
+	note(l, o)
+	if !strings.HasPrefix(o, "obj "+drv.Hex([]byte("blocker"))+" ") {
+		fail("GET of the other object", o, "unchanged")
+		return
+	}
+	l, o = r.Get(b, key)
+	note(l, o)
+	if strings.HasPrefix(o, "obj ") {
+		fail("GET of the key of the refused complete", o, "no object was stored")
+		return
+	}
+	// the obstacle goes away: the very same request now succeeds
+	l, o = r.Del(b, blocker)
+	note(l, o)
+	l, o = r.MpComplete(b, key, id, []cpart{{1, etag}})
+	note(l, o)
+	if !strings.HasPrefix(o, "completed ") {
+		fail("the same complete after the obstacle was removed", o, "completed")
+		return
+	}
+	l, o = r.Get(b, key)
+	note(l, o)
+	if !strings.HasPrefix(o, "obj "+drv.Hex(part)+" ") {
+		fail("GET after the complete", o, "the part's bytes")
 	}
 }
 
@@ -445,9 +538,13 @@ func runC14(c *Ctx) {
 	if c.Thorough() {
 		nHist = 2500
 	}
-	c.R.Rule = fmt.Sprintf("%d random histories (s3mem store; the uploader is shared by all backends) of initiate / upload-part / overwrite / abort / complete over keys {a, d/x, d/y, e/z, f} with 1–3 uploads per key and part numbers with gaps up to 10000 (incl. 999…1200); then ListMultipartUploads for every max-uploads 1..n+1 following the returned (key, upload-id) markers, with and without prefix/delimiter, and ListParts for every max-parts 1..n+1 following NextPartNumberMarker, plus arbitrary numeric part-number markers (0, existing, gaps, highest, highest+1, 10000, 2^63-1); each page is compared with the Lean model, the concatenation of a walk with the specification (exactly the pending uploads by key then initiation / exactly the held parts ascending with true numbers); non-trivial = distinct history with at least 3 pending uploads or 3 parts", nHist)
+	c.R.Rule = fmt.Sprintf("%d random histories (s3mem store; the uploader is shared by all backends) of initiate / upload-part / overwrite / abort / complete over keys {a, d/x, d/y, e/z, f} with 1–3 uploads per key and part numbers with gaps up to 10000 (incl. 999…1200); then ListMultipartUploads for every max-uploads 1..n+1 following the returned (key, upload-id) markers, with and without prefix/delimiter, and ListParts for every max-parts 1..n+1 following NextPartNumberMarker, plus arbitrary numeric part-number markers (0, existing, gaps, highest, highest+1, 10000, 2^63-1); each page is compared with the Lean model, the concatenation of a walk with the specification (exactly the pending uploads by key then initiation / exactly the held parts ascending with true numbers); an upload whose complete the backend refuses stays listed with its parts (fs backends); non-trivial = distinct history with at least 3 pending uploads or 3 parts", nHist)
 	for hI := 0; hI < nHist; hI++ {
 		c14History(c)
+	}
+	// an upload whose complete is refused by the backend stays listed
+	for _, kind := range c.kinds([]string{"fsM-mem", "fsM-dir", "fsS-mem", "fsS-dir"}) {
+		c06FailedStore(c, kind, "c14")
 	}
 }
 
